@@ -855,6 +855,16 @@ class Interp:
         # f-string: opaque fresh string.  When every embedded expression is a pure read, the parts are kept
         # python-side so that library models (IPv4Network(f"{a}/{m}")) can see them; they never influence the string.
         v = self.st.fresh_val("fstr", T.STR)
+        # the text is opaque, but an embedded `sep.join(xs)` can raise (TypeError on non-string items): those calls are evaluated for
+        # their obligations
+        if not self.st.spec_depth:
+            for sub in ast.walk(node):
+                if isinstance(sub, ast.Call) and isinstance(sub.func, ast.Attribute) and sub.func.attr == "join" and len(sub.args) == 1 \
+                        and isinstance(sub.func.value, ast.Constant) and isinstance(sub.func.value.value, str) and self.is_pure(sub.args[0], fr):
+                    try:
+                        self.ev(sub, fr)
+                    except Refuse:
+                        pass
         try:
             parts = []
             for p in node.values:
